@@ -1486,7 +1486,9 @@ Library read_oas(const char* filename, double unit, double tolerance, ErrorCode*
     //                                     "CBLOCK"};
 
     OasisRecord record;
-    while ((error_code == NULL || *error_code == ErrorCode::NoError) &&
+    // Warnings (e.g. an ignored XELEMENT) must not end the parsing: only
+    // stop on errors.
+    while ((error_code == NULL || *error_code < ErrorCode::ChecksumError) &&
            oasis_read(&record, 1, 1, in) == ErrorCode::NoError) {
         // DEBUG_PRINT("Record [%02u] %s\n", (uint8_t)record,
         //             (uint8_t)record < COUNT(oasis_record_names)
